@@ -191,6 +191,15 @@ def check(case):
     with tarfile.open(fileobj=buf, mode="w:gz" if opts["gz"] else "w") as tar:
         auto.supercelltar(tar, sd, **kw)
     names, files, dirs, links = read_archive(buf.getvalue())
+    # writing is a read-only use of the supercell dictionary: a second archive written from the same dictionary (say, with another
+    # KPOINTS setting) must contain the same files
+    buf2 = io.BytesIO()
+    with tarfile.open(fileobj=buf2, mode="w") as tar:
+        auto.supercelltar(tar, sd, **kw)
+    names2, files2, dirs2, links2 = read_archive(buf2.getvalue())
+    require(sorted(names2) == sorted(names), "a second archive written from the same dictionary has other member names")
+    for n in files:
+        require(files2[n][0] == files[n][0], lambda: "a second archive written from the same dictionary differs in %s (the first write changed the dictionary)" % n)
     base = opts["basedir"]
     if base and not base.endswith("/"):
         base += "/"
